@@ -267,6 +267,9 @@ func (cs *ContractSet) LoadFile(path, defaultPkg string) {
 				continue
 			}
 			sf.File, sf.Line = path, rc.line
+			if prev, dup := cs.SpecFuncs[sf.Name]; dup {
+				fail(rc.line, "spec %s already defined at %s:%d (spec names are global)", sf.Name, prev.File, prev.Line)
+			}
 			cs.SpecFuncs[sf.Name] = sf
 		case kw == "pred":
 			predOpaque := false
@@ -283,6 +286,9 @@ func (cs *ContractSet) LoadFile(path, defaultPkg string) {
 				continue
 			}
 			p.File, p.Line = path, rc.line
+			if prev, dup := cs.Preds[p.Name]; dup {
+				fail(rc.line, "pred %s already defined at %s:%d (pred names are global)", p.Name, prev.File, prev.Line)
+			}
 			cs.Preds[p.Name] = p
 		case kw == "ghost":
 			// ghost var name sort [= init]
